@@ -151,6 +151,15 @@ def c09_text(t, dump, tier):
             outs.append(out)
     if dump.get('syntax_errors') or not outs:
         return res, stats
+    # translator validation: the native formatter's output for the text as laid out must be one of the engine's outputs
+    try:
+        nfm = symgo.native_run([t.text], orders=[], fmt=True, visit=False)[0]
+        if not nfm.get('format_panic') and not nfm.get('fatal') and not nfm.get('format_err'):
+            stats['validated'] = stats.get('validated', 0) + 1
+            if nfm.get('format') not in outs:
+                stats.setdefault('validation_failures', []).append('format: native output %r is none of the engine\'s %d outputs' % ((nfm.get('format') or '')[:80], len(outs)))
+    except Exception as e:
+        stats.setdefault('validation_failures', []).append('native run failed: %s' % str(e)[:100])
     # the formatted text must parse, keep every token (comments and doc strings included) in order, and compile identically
     want = token_seq(dump, consts)
     nat = symgo.native_dump(outs)
